@@ -21,12 +21,23 @@ Inductive gexpr :=
 | GTuple (es : list gexpr)
 | GBin (op : string) (a b : gexpr)                    (* + - * /  < > <= >= == !=  is isnot  and or *)
 | GIdx (a i : gexpr)                                  (* a[i] *)
-| GSlice (a lo hi st : gexpr).                        (* a[lo:hi:st]; an omitted bound is GNone *)
+| GSlice (a lo hi st : gexpr)                         (* a[lo:hi:st]; an omitted bound is GNone *)
+| GList (es : list gexpr)                             (* [e1, ..., ek] *)
+| GIfExp (c a b : gexpr)                              (* a if c else b *)
+| GFloat (num : Z) (den : positive)                   (* a float literal, as the exact rational it denotes *)
+| GNeg (a : gexpr).                                   (* -a *)
 
-Inductive glhs := LSelf (f : field) | LVar (v : string).
+Inductive glhs :=
+| LSelf (f : field)                                   (* self.f = ... *)
+| LVar (v : string)                                   (* v = ... *)
+| LIdx (v : string) (i : gexpr)                       (* v[i] = ... *)
+| LSlice (v : string) (lo hi : gexpr).                (* v[lo:hi] = ... *)
 
 Inductive gstmt :=
 | SAssign (l : list glhs) (e : gexpr)                 (* t = e   or   t1, t2 = e *)
 | SIf (c : gexpr) (th el : list gstmt)
 | SRaise (exn : string)
-| SReturn (e : gexpr).
+| SReturn (e : gexpr)
+| SExpr (e : gexpr)                                   (* an expression statement: warnings.warn(...) *)
+| SAug (l : glhs) (op : string) (e : gexpr)           (* t op= e *)
+| SFor (vars : list string) (it : gexpr) (body : list gstmt).   (* for v1, ..., vk in it: body *)
